@@ -146,9 +146,6 @@ def avoidCollisions (shapes : List Shape) (b : ABox) (cb : CB) (outer : Bool) :
   let y0 := if outer then b.py else b.py + b.mt
   let w := if outer then b.marginWidth else b.bw
   let h := if outer then b.marginHeight else b.bh
-  -- `if box.border_height() == 0 and box.is_floated(): return cb.content_box_x(), position_y, cb.width`
-  -- (no `- margin_left / - margin_top` correction for `outer=False` on this exit)
-  if b.bh = 0 && b.isFloated then .ok ⟨cb.cx, y0, cb.w⟩ else
   let l0 := if outer then cb.cx else cb.cx + b.ml
   let r0 := if outer then cb.cx + cb.w else cb.cx + cb.w - b.mr
   match avoidLoop (shapes.length + 1) shapes w h l0 r0 y0 with
